@@ -30,6 +30,8 @@ namespace sim
    using io_top = io::g_json;
 #elif IO_PROG == 10
    using io_top = io::g_json;
+#elif IO_PROG == 11
+   using io_top = io::g_nest;
 #else
    using io_top = io::g_mustif;
 #endif
